@@ -141,6 +141,133 @@ def shrink(op, call, key):
     return cur
 
 
+# ------------------------------------------------------------------------- call histories
+def _known_keys():
+    return {f["key"] for f in core.load_findings() if f["property"] == "C05" and f.get("status") == "known"}
+
+
+def judge_history(op, hist, known=None):
+    """Run the calls of a history in this process on shared Vars; judge every call against fresh
+    strict inference. A failure of a later call whose observed outcome repeats an earlier call's is
+    keyed `history:stale-...` (state carried from call to call)."""
+    known = _known_keys() if known is None else known
+    sps = L.run_history(op, hist)
+    out, seen = [], []
+    for i, (call, sp) in enumerate(zip(L.history_calls(hist), sps)):
+        key, what, info = judge(op, call, sp)
+        outcome = (sp["raised"], json.dumps(sp["types"], sort_keys=True))
+
+        def repeats(prev):
+            if prev == outcome:
+                return True
+            if prev[0] is not None or sp["raised"] is not None:
+                return False
+            e, t = json.loads(prev[1]), sp["types"]
+            m = min(len(e), len(t))
+            return m > 0 and e[:m] == t[:m] and all(x is None for x in t[m:])
+
+        if key is not None and key not in known and i > 0:
+            if any(repeats(pv) for pv in seen):
+                kind = "verdict" if (sp["raised"] is not None or key.startswith("accepts-")) else "types"
+                key = f"history:stale-{kind}:{op.name}"
+                what = (f"{op.name}: call #{i + 1} of a sequence in one process (differs from call #{[repeats(pv) for pv in seen].index(True) + 1} in: "
+                        f"{hist.get('facets', ['?'] * 9)[i] if hist.get('facets', ['base'])[0] == 'base' else 'order reversed'}) "
+                        f"got the earlier call's outcome instead of its own: " + what)
+            else:
+                key = "history:" + key
+        if key is None:  # only a correctly answered earlier call can be "repeated" stalely
+            seen.append(outcome)
+        out.append((i, key, what, info, call, sp))
+    return out
+
+
+def merge_calls(calls):
+    """independent calls (each with its own `vars`) -> one history over the concatenated Var list"""
+    vars_, out = [], []
+    for c in calls:
+        off = len(vars_)
+        vars_ += copy.deepcopy(c["vars"])
+        sh = lambda a: None if a is None else [x + off for x in a] if isinstance(a, list) else a + off  # noqa: E731
+        d = {k: copy.deepcopy(v) for k, v in c.items() if k != "vars"}
+        d["args"] = [sh(a) for a in c["args"]]
+        if c.get("sub") and c["op"] in ("If", "Loop"):  # these name outer-scope Vars; Scan/SequenceMap name body inputs
+            d["sub"] = {k: [x if x == "same" else x + off for x in v] for k, v in c["sub"].items()}
+        out.append(d)
+    return {"vars": vars_, "calls": out, "facets": ["earlier call of this process"] * (len(out) - 1) + ["failing call"]}
+
+
+_confirm_budget = {"single": 10, "pair": 12, "history": 14}
+
+
+def confirm(case, key, purpose="single") -> bool:
+    """Does the witness fail in a FRESH process (what `--replay` will do)? Bounded number of uses per
+    purpose; when the budget is spent the answer is False (the witness is then not registered as a
+    concrete failure, only reported as seen-in-this-process)."""
+    import hashlib
+    import os
+    import subprocess
+
+    if _confirm_budget[purpose] <= 0:
+        return False
+    _confirm_budget[purpose] -= 1
+    doc = {"property": "C05", "kind": "input", "key": key, "case": case}
+    path = core.WORK / ("confirm-" + hashlib.sha1(json.dumps(doc, sort_keys=True, default=str).encode()).hexdigest()[:10] + ".json")
+    path.write_text(json.dumps(doc, default=str))
+    env = dict(os.environ, PYTHONPATH=str(core.VERIF), PYTHONDONTWRITEBYTECODE="1")
+    try:
+        r = subprocess.run([core.PY, "-m", "harness.cli", "C05", "--replay", str(path)], cwd=core.VERIF, env=env,
+                           capture_output=True, text=True, timeout=300)
+        return r.returncode == 1
+    except Exception:  # noqa: BLE001
+        return False
+    finally:
+        try:
+            path.unlink()
+        except OSError:
+            pass
+
+
+def register(ck, op, key, what, call, earlier):
+    """Register a failure found in the sweep with a witness that fails in a fresh process: the call
+    alone if possible, otherwise the call preceded by earlier calls of this process (hidden state)."""
+    single = {"op_key": op.key, "call": call}
+    if confirm(single, key):
+        small = shrink(op, call, key)
+        if small != call and confirm({"op_key": op.key, "call": small}, key):
+            single = {"op_key": op.key, "call": small}
+        ck.failure(key, what, single)
+        return
+    hkey = f"history:process-state:{op.name}"
+    if any(f["key"] == hkey for f in ck.failures):
+        return
+    for j in range(len(earlier) - 1, max(-1, len(earlier) - 3), -1):  # most recent first
+        h = merge_calls([earlier[j], call])
+        if confirm({"op_key": op.key, "history": h}, hkey, "pair"):
+            ck.failure(hkey, f"{op.name}: the call is judged correctly on its own but not after an earlier call of the same process: " + what,
+                       {"op_key": op.key, "history": h})
+            return
+    if earlier:
+        h = merge_calls(earlier[-30:] + [call])
+        if confirm({"op_key": op.key, "history": h}, hkey, "pair"):
+            ck.failure(hkey, f"{op.name}: the call is judged correctly on its own but not after the earlier calls of the same process: " + what,
+                       {"op_key": op.key, "history": h})
+            return
+    brk(ck, "oracle", f"failure seen only inside this process: {key}", what + " | call=" + json.dumps(call)[:500])
+
+
+def shrink_history(op, hist, key):
+    """keep only (one earlier call, the failing call) if that still fails with the same key"""
+    n = len(hist["calls"])
+    if n == 2:
+        return hist
+    for i in range(1, n):
+        for j in range(i):
+            h2 = {"vars": hist["vars"], "calls": [hist["calls"][j], hist["calls"][i]], "facets": ["first", "second"]}
+            if confirm({"op_key": op.key, "history": h2}, key, "history"):
+                return h2
+    return hist
+
+
 # ------------------------------------------------------------------------- correspondence
 def _cmp(name, a, b, diffs):
     if a != b:
@@ -334,11 +461,71 @@ def run(ck: core.Check):
         if k is not None:
             ck.failure(k, what, case)
 
+    # 1a. call histories (first: the process is still fresh): sequences of calls in one process that differ in one facet
+    known = _known_keys()
+    hwork = []
+    for op in ops:
+        if op.shared_with or op.name in L.SUBGRAPH_OPS:
+            continue
+        multi = L._variadic_output(op) or op.name in L.BODY_OPS
+        for k in range(ck.pick(25, 250) if multi else ck.pick(2, 20)):
+            hwork.append((op, "out_count" if multi and k % 2 == 0 else None))
+    rng.shuffle(hwork)
+    hstats = collections.Counter()
+    reqs, pending = [], []
+    for op, facet in hwork:
+        try:
+            hist = L.gen_history(rng, op, facet)
+            if hist is None:
+                hstats["not_applicable"] += 1
+                continue
+            for rev in (False, True):
+                h = hist if not rev else {"vars": hist["vars"], "calls": hist["calls"][::-1], "facets": hist["facets"][::-1]}
+                hstats["histories"] += 1
+                for f in h["facets"]:
+                    if f != "base":
+                        hstats["facet:" + f] += 1
+                for i, key, what, info, call, sp in judge_history(op, h, known):
+                    hstats["calls"] += 1
+                    ck.count(("history", op.key, info["class"], i, tuple(h["facets"])))
+                    if key is not None:
+                        if key in known:
+                            ck.failure(key, what, {"op_key": op.key, "history": h})
+                        elif not any(f["key"] == key for f in ck.failures):
+                            hs = {"vars": h["vars"], "calls": h["calls"][: i + 1], "facets": h["facets"][: i + 1]}
+                            if confirm({"op_key": op.key, "history": hs}, key, "history"):
+                                ck.failure(key, what, {"op_key": op.key, "history": shrink_history(op, hs, key)})
+                            else:
+                                brk(ck, "oracle", f"failure seen only inside this process: {key}", what[:600])
+                    try:
+                        req = L.model_request(op, call, sp)
+                    except Exception as e:  # noqa: BLE001
+                        brk(ck, "correspondence", "constructor call not observable (model request)", f"{type(e).__name__}: {e}"[:300])
+                        continue
+                    if req is not None:
+                        reqs.append(req)
+                        pending.append((op, call, sp))
+        except Exception as e:  # noqa: BLE001
+            stats["case_errors"] += 1
+            brk(ck, "harness", "a call history could not be run", f"e.g. {op.key}: {type(e).__name__}: {e}"[:300])
+        if len(reqs) >= 3000:
+            for (op_, call, sp), ans in zip(pending, ck.driver().ask_many("C05", reqs)):
+                correspond_case(ck, op_, call, sp, ans, stats)
+            reqs, pending = [], []
+    if reqs:
+        for (op_, call, sp), ans in zip(pending, ck.driver().ask_many("C05", reqs)):
+            correspond_case(ck, op_, call, sp, ans, stats)
+    ck.log(f"{hstats['histories']} call histories, {hstats['calls']} calls")
+    ck.cov["histories"] = dict(hstats)
+
     # 1. generated calls
     work = []
     for op in ops:
         for _ in range(_budget(ck, op)):
             work.append(op)
+    known_keys = _known_keys()
+    made: dict = collections.defaultdict(list)  # calls already made in this process, per operator
+
     def one_case(op, reqs, pending):
         call = L.gen_call(rng, op)
         if "skip" in call:
@@ -351,11 +538,14 @@ def run(ck: core.Check):
         per_op[op.key][info["class"]] += 1
         ck.count((op.key, info["class"], call["family"], len(call["attrs"]), tuple(type(a).__name__ for a in call["args"])))
         if key is not None:
-            if not any(f["key"] == key for f in ck.failures) and not any(h["key"] == key for h in ck.known_hits):
-                call = shrink(op, call, key)
-            ck.failure(key, what, {"op_key": op.key, "call": call})
+            if key in known_keys:
+                ck.failure(key, what, {"op_key": op.key, "call": call})
+            elif not any(f["key"] == key for f in ck.failures):
+                register(ck, op, key, what, call, made[op.key])
         else:
             ck.sample({"op": op.key, "call": call, "verdict": info["class"]}, limit=4)
+        if "skip" not in call and len(made[op.key]) < 60:
+            made[op.key].append(call)
         for oe in sp.get("obs_errors", []):
             brk(ck, "correspondence", "not observable: " + oe.split(":")[0], oe)
         try:
@@ -366,7 +556,7 @@ def run(ck: core.Check):
             return
         if req is None:
             stats["no_node_observed"] += 1
-            if sp["raised"] not in ("TypeError", "AssertionError", "ValueError"):
+            if sp["raised"] is None:  # (a constructor may raise before it creates the node)
                 brk(ck, "correspondence", "no node object observed for a call", f"e.g. {op.key}: {sp['raised']}: {sp.get('msg')}"[:300])
             return
         reqs.append(req)
@@ -435,7 +625,8 @@ def run(ck: core.Check):
     ck.assumptions += [
         "onnx.shape_inference.infer_shapes is invariant under injective renaming of value names and ignores graph inputs / initializers the node does not read (hypotheses InferOK of eager_agrees; observed by the oracle, which uses its own names and no extra inputs)",
         "an attribute left at its default denotes the same node whether omitted or written with the schema default (the oracle accepts either representative: ONNX's ArgMax/ArgMin inference treats them differently for rank-0 inputs)",
-        "If / Loop are generated with Identity bodies over outer-scope values; Scan / SequenceMap are not generated",
+        "call histories: 2-4 calls of one operator in one process on shared Vars, differing in one facet (output count, one attribute, a constant's value, an optional input, an input shape), both orders; each call judged against fresh inference",
+        "If / Loop / Scan / SequenceMap are generated with Identity bodies (over outer-scope values resp. body inputs)",
     ]
     ck.trusted_base += [
         "harness/lib_c05.py: schema-driven generator, capture of the inference request by wrapping onnx.shape_inference.infer_shapes and Node.inference, canonicalisation of TypeProtos",
@@ -454,6 +645,15 @@ def replay(ck: core.Check, doc) -> bool:
     case = doc["case"]
     ops = {o.key: o for o in L.load_vocabulary()}
     op = ops[case["op_key"]]
+    if "history" in case:
+        known = _known_keys()
+        bad = []
+        for i, key, what, info, call, sp in judge_history(op, case["history"], known):
+            print(f"call #{i + 1}: {json.dumps(info['spox'], default=str)[:300]} -> {key}")
+            if key is not None and (key == doc.get("key") or key not in known):
+                print(f"{key}: {what}"[:600])
+                bad.append(key)
+        return bool(bad)
     key, what, info = judge(op, case["call"])
     print(json.dumps(info, default=str)[:1500])
     if key is not None:
